@@ -49,11 +49,16 @@ def show(m):
     return ",".join("%s=%s" % (k.hex(), m[k]) for k in sorted(m))
 
 
-def judge(tokens, results, reopen, scan):
+def judge(tokens, results, reopen, scan, bytes_reach_file=False):
     """returns None or a description of the violation"""
     if len(results) != len(tokens):
         return "result count %d differs from token count %d" % (len(results), len(tokens))
     possible = [dict()]
+    # what the reopened database may contain: every Ok write, each failed write completely or not
+    # at all. A failed write whose bytes did reach the log (the call failed afterwards) may be
+    # invisible to reads of the running database and present after the reopen, so reads during the
+    # run narrow [possible] but not [final_possible]
+    final_possible = [dict()]
     for i, (t, r) in enumerate(zip(tokens, results)):
         c = t[0]
         if r == "closed":
@@ -61,11 +66,15 @@ def judge(tokens, results, reopen, scan):
         if c in "PDB":
             if r == "ok":
                 possible = [apply_write(m, t) for m in possible]
+                final_possible = [apply_write(m, t) for m in final_possible]
             elif r.startswith("err") or r == "nf":
                 # failed write: completely or not at all
                 possible = possible + [apply_write(m, t) for m in possible]
+                final_possible = final_possible + [apply_write(m, t) for m in final_possible]
                 if len(possible) > 64:
                     possible = possible[:64]
+                if len(final_possible) > 256:
+                    final_possible = final_possible[:256]
             else:
                 return "token %d %s: unexpected result %s" % (i, lib.trunc(t, 40), r)
         elif c == "G":
@@ -81,11 +90,19 @@ def judge(tokens, results, reopen, scan):
         elif c == "O":
             if not (r == "ok" or r.startswith("open-")):
                 return "token %d reopen: unexpected result %s" % (i, r)
+            # a reopen inside the run recovers from the files: a failed write whose bytes reached
+            # the log may be back
+            if bytes_reach_file:
+                possible = list(final_possible)
     if reopen != "ok":
         return "after the fault is gone the database does not reopen: %s" % reopen
-    if scan not in {show(m) for m in possible}:
+    if not bytes_reach_file:
+        # a failed call of which nothing reached the file: what reads of the running database
+        # ruled out stays ruled out
+        final_possible = possible
+    if scan not in {show(m) for m in final_possible}:
         return ("after the fault is gone and the database is reopened the contents are %s; allowed (Ok writes, failed writes all-or-nothing): %s"
-                % (lib.trunc(scan, 300), lib.trunc(sorted({show(m) for m in possible})[:4], 600)))
+                % (lib.trunc(scan, 300), lib.trunc(sorted({show(m) for m in final_possible})[:4], 600)))
     return None
 
 
@@ -151,7 +168,7 @@ class FaultSuite:
                 self.stats["fired"] += 1 if fired else 0
                 key = ".".join(name.split(".")[:2])
                 self.stats["by_class"][key] = self.stats["by_class"].get(key, 0) + 1
-                msg = judge(tokens, parts[2].split(","), parts[3], parts[4])
+                msg = judge(tokens, parts[2].split(","), parts[3], parts[4], bytes_reach_file=name.endswith(".2"))
                 if msg:
                     prop.append({"case": narrow(c, name), "impl": lib.trunc(f, 1500), "spec": "", "model": "",
                                  "detail": "fault %s (fired %d times): %s" % (name, fired, msg)})
